@@ -75,55 +75,133 @@ def load_prop(pid):
     return mod.PROP
 
 
+LAST_HANG = {"stack": None, "kind": None}
+
+
+def _where(frame):
+    rows = []
+    for fs in traceback.extract_stack(frame, limit=14):
+        fn = fs.filename
+        for pre in (REPO + "/", VERIF + "/"):
+            if fn.startswith(pre):
+                fn = fn[len(pre):]
+        rows.append("%s:%d %s" % (fn, fs.lineno, fs.name))
+    return rows
+
+
+ARMED = {"cpu0": 0.0, "wall0": 0.0, "cpu_s": 0.0, "wall_s": 0.0}
+
+
 def _alarm(signum, frame):
+    """CPU-time watchdog (ITIMER_PROF): the run has burnt its whole CPU budget, it spins.  The expiry is
+    re-checked against CLOCK_PROCESS_CPUTIME_ID: the interval timer was seen to fire early (about once in 20 000
+    arms on this kernel), and an early expiry must not become a verdict."""
+    used = time.process_time() - ARMED["cpu0"]
+    if used < ARMED["cpu_s"] * 0.97:
+        signal.setitimer(signal.ITIMER_PROF, max(0.05, ARMED["cpu_s"] - used))
+        return
+    LAST_HANG["stack"], LAST_HANG["kind"] = _where(frame), "cpu"
     raise Hang()
 
 
+def _alarm_wall(signum, frame):
+    """Wall-clock fallback for a run that blocks without using CPU (a real lock): always a harness error."""
+    used = time.monotonic() - ARMED["wall0"]
+    if used < ARMED["wall_s"] * 0.97:
+        signal.setitimer(signal.ITIMER_REAL, max(0.05, ARMED["wall_s"] - used))
+        return
+    LAST_HANG["stack"], LAST_HANG["kind"] = _where(frame), "wall"
+    raise Hang()
+
+
+def arm_watchdog(cpu_s):
+    """(Re)start the per-run watchdog.  The budget is CPU time of this process, not wall time: a stalled or
+    overloaded machine (or a paused VM) must not turn into a verdict; the wall timer is only a backstop."""
+    signal.signal(signal.SIGPROF, _alarm)
+    signal.signal(signal.SIGALRM, _alarm_wall)
+    ARMED.update(cpu0=time.process_time(), wall0=time.monotonic(), cpu_s=cpu_s, wall_s=cpu_s * 5 + 60)
+    signal.setitimer(signal.ITIMER_PROF, cpu_s)
+    signal.setitimer(signal.ITIMER_REAL, cpu_s * 5 + 60)
+
+
+def disarm_watchdog():
+    signal.setitimer(signal.ITIMER_PROF, 0)
+    signal.setitimer(signal.ITIMER_REAL, 0)
+
+
 def guarded_execute(prop, sc, wall=None):
-    """Execute one scenario under the wall watchdog.  A hang is a harness error
-    unless the property says the watchdog is its oracle (hang_rule)."""
+    """Execute one scenario under the watchdog.  An expiry is only a suspicion: on this (virtualised) machine a process
+    was seen to lose 2 s and more in the middle of a run that normally takes milliseconds, with the lost time booked as
+    its own CPU time.  The scenario is therefore executed again with ten times the budget, and only a second expiry
+    counts: as the property's verdict where the watchdog is its oracle (hang_rule), as a harness error elsewhere."""
     wall = wall or getattr(prop, "run_wall", 20.0)
-    signal.signal(signal.SIGALRM, _alarm)
-    signal.setitimer(signal.ITIMER_REAL, wall)
-    try:
-        return prop.execute(sc)
-    except Hang:
-        hang_rule = getattr(prop, "hang_rule", None)
-        if hang_rule:
-            out = Outcome()
-            out.bad(hang_rule, "run did not finish within the %.0fs wall watchdog" % wall)
-            out.digest = ("hang",)
-            return out
-        path = None
+    for attempt, budget in enumerate((wall, max(10 * wall, 30.0))):
+        arm_watchdog(budget)
         try:
-            body = json.dumps(sc, sort_keys=True)
-            os.makedirs(os.path.join(VERIF, "replays"), exist_ok=True)
-            path = os.path.join(VERIF, "replays", "%s-hang-%s.json" % (prop.id, hashlib.sha256(body.encode()).hexdigest()[:12]))
-            with open(path, "w") as f:
-                f.write(body)
-        except Exception:
-            pass
-        raise HarnessError("scenario hung (%s): %s" % (path, json.dumps(sc)[:300]))
-    finally:
-        signal.setitimer(signal.ITIMER_REAL, 0)
+            out = prop.execute(sc)
+            if attempt:
+                out.probes["watchdog_expiry_not_confirmed"] += 1
+            return out
+        except Hang:
+            disarm_watchdog()
+            if attempt == 0:
+                continue
+            hang_rule = getattr(prop, "hang_rule", None)
+            if hang_rule and LAST_HANG["kind"] == "cpu":
+                out = Outcome()
+                out.bad(hang_rule, "run did not finish within %.0fs of CPU time (and, run again, not within %.0fs)" % (wall, budget))
+                out.digest = ("hang",)
+                out.info = {"spinning_at": LAST_HANG["stack"]}
+                return out
+            path = None
+            try:
+                body = json.dumps(sc, sort_keys=True)
+                os.makedirs(os.path.join(VERIF, "replays"), exist_ok=True)
+                path = os.path.join(VERIF, "replays", "%s-hang-%s.json" % (prop.id, hashlib.sha256(body.encode()).hexdigest()[:12]))
+                with open(path, "w") as f:
+                    f.write(body)
+            except Exception:
+                pass
+            raise HarnessError("scenario hung (%s watchdog, %s) at %s: %s" % (LAST_HANG["kind"], path, (LAST_HANG["stack"] or [])[-4:], json.dumps(sc)[:300]))
+        finally:
+            disarm_watchdog()
 
 
 _PINNED = False
 DUMP = bool(os.environ.get("VERIF_DUMP"))
 
 
-def _pin():
-    """Pin this worker process to one CPU: baton passing between the simulated threads of a run is then a
-    same-core hand-off (no cross-core wake-ups), which is what makes the TH engine scale with processes."""
+_CPU_LOCK = []
+
+
+def _pin(prop=None):
+    """TH engine only: give this worker process one CPU of its own, so that baton passing between the simulated threads
+    of a run is a same-core hand-off (no cross-core wake-ups) - that is what makes the TH engine scale with processes.
+    The CPU is claimed through an advisory lock file, so that two checks running at the same time (a quick and a
+    thorough run, a soak in the background) never pin workers to the same core: a worker starved by a pinned sibling
+    made wall-clock watchdogs fire on the unchanged tree.  No free CPU -> not pinned; VT workers are never pinned."""
     global _PINNED
     if _PINNED:
         return
     _PINNED = True
+    if prop is not None and "TH" not in str(getattr(prop, "engine", "")):
+        return
     try:
+        import fcntl
+        import tempfile
         cpus = sorted(os.sched_getaffinity(0))
         ident = multiprocessing.current_process()._identity
-        idx = (ident[0] - 1) if ident else os.getpid()
-        os.sched_setaffinity(0, {cpus[idx % len(cpus)]})
+        first = ((ident[0] - 1) if ident else os.getpid()) % len(cpus)
+        for c in cpus[first:] + cpus[:first]:
+            fd = os.open(os.path.join(tempfile.gettempdir(), ".verif_cpu_%d.lock" % c), os.O_CREAT | os.O_RDWR, 0o666)
+            try:
+                fcntl.flock(fd, fcntl.LOCK_EX | fcntl.LOCK_NB)
+            except OSError:
+                os.close(fd)
+                continue
+            _CPU_LOCK.append(fd)  # held until the worker exits
+            os.sched_setaffinity(0, {c})
+            return
     except Exception:
         pass
 
@@ -131,8 +209,9 @@ def _pin():
 def _chunk(args):
     pid, tier, vseed, start, count, deadline = args
     faulthandler.enable()
-    _pin()
+    faulthandler.register(signal.SIGUSR1, all_threads=True)  # kill -USR1 <worker pid> prints where it is
     prop = load_prop(pid)
+    _pin(prop)
     known = load_known()
     agg = {
         "dump": [],
@@ -496,8 +575,9 @@ def check(pid, tier="quick", runs=None, procs=None, vseed=None, budget=None):
         "wall_s": round(wall, 2),
         "violations": len(reported),
     }
-    os.makedirs(os.path.join(VERIF, "evidence"), exist_ok=True)
-    with open(os.path.join(VERIF, "evidence", pid + ".json"), "w") as f:
+    evdir = os.environ.get("VERIF_EVIDENCE_DIR") or os.path.join(VERIF, "evidence")  # self-tests and mutant runs write elsewhere
+    os.makedirs(evdir, exist_ok=True)
+    with open(os.path.join(evdir, pid + ".json"), "w") as f:
         json.dump(ev, f, indent=1, default=_json_default)
     print("%s: %d runs, %d distinct non-trivial, %.1fs, faults=%s, suppressed=%s%s" % (
         pid, total["n"], len(total["nt_digests"]), wall, dict(total["faults"]), dict(suppressed),
